@@ -80,7 +80,8 @@ fn gen_layer_block(src: &mut Src, f: &mut Flags) -> LefLayerGeometries {
             }
             _ => {
                 needs_width = true;
-                let n = src.usize_in(2, 5);
+                // a path may consist of a single point (a width-sized dot)
+                let n = src.usize_in(1, 5);
                 LefShape::Path(None, (0..n).map(|_| gen_pt(src, &mut f.fine)).collect())
             }
         };
